@@ -19,6 +19,47 @@ def check(run):
     strict(run, p)
     exclprov(run, p)
     cleanset(run, p)
+    deadattr(run, p)
+
+
+DEAD_BY_DESIGN = {
+    'cwd_in_home': 'computed next to user_in_home but never consulted on the pinned tree (harmless leftover)',
+}
+
+
+def deadattr(run, p):
+    run.rule('C12-DEADATTR', 'every fact the generator computes about its environment is the one its decisions read: an attribute '
+                             'that TestGenerator.__init__ computes (not a plain copy of an argument) is read somewhere in the '
+                             'generator - a computed attribute nobody reads means a decision is being taken on a different one')
+    c = p.cls('TestGenerator')
+    init = c.methods['__init__']
+    loads = set()
+    for x in ast.walk(c.mod.tree):
+        if isinstance(x, ast.Attribute) and isinstance(x.ctx, ast.Load):
+            loads.add(x.attr)
+        if isinstance(x, ast.Call) and getattr(x.func, 'id', '') in ('getattr', 'hasattr') and len(x.args) > 1 and \
+                isinstance(x.args[1], ast.Constant):
+            loads.add(x.args[1].value)
+    n = 0
+    for s in p.own_nodes(init):
+        if not isinstance(s, ast.Assign):
+            continue
+        for t in s.targets:
+            if not (isinstance(t, ast.Attribute) and isinstance(t.value, ast.Name) and t.value.id == 'self'):
+                continue
+            v = s.value
+            if isinstance(v, (ast.Name, ast.Constant)) or (isinstance(v, ast.BoolOp) and all(isinstance(e, (ast.Name, ast.Constant)) for e in v.values)):
+                continue            # argument stored as given / constant default: part of the object's interface
+            n += 1
+            if t.attr in DEAD_BY_DESIGN and t.attr not in loads:
+                run.note('C12-DEADATTR', 'never read, by design: self.%s (%s)' % (t.attr, DEAD_BY_DESIGN[t.attr]), fn=init, node=s)
+                continue
+            run.ob('C12-DEADATTR', '%s::%s::self.%s' % (init.rel, init.short, t.attr), t.attr in loads,
+                   'self.%s = %s is %s' % (t.attr, norm(v)[:50], 'read by the generator' if t.attr in loads else
+                                           'computed but never read: the decision it was computed for now reads something else'),
+                   fn=init, node=s, nontrivial=False)
+    run.floor('C12-DEADATTR', n, 10)
+
 
 
 def roles(run, p):
